@@ -847,6 +847,23 @@ pub fn dispatch(op: &str, t: &mut Toks) -> R<String> {
                 crate::reader::op_aread(w, f, sched, data)
             }
         }
+        // `ExtendedHeader::skip_with_level` itself, for every pair of message type and threshold
+        // (also thresholds no numeric configuration produces)
+        "SKIPLVL" => {
+            let mt = t.message_type()?;
+            let l = t.log_level()?;
+            let eh = ExtendedHeader {
+                verbose: false,
+                argument_count: 0,
+                message_type: mt,
+                application_id: String::new(),
+                context_id: String::new(),
+            };
+            match guard(|| eh.skip_with_level(l)) {
+                Some(b) => format!("skip={}", p_bool(b)),
+                None => "PANIC".to_string(),
+            }
+        }
         "FILT" => {
             let w = t.boolean()?;
             let f = t.filter()?;
